@@ -225,3 +225,11 @@ Proof.
   apply andb_prop in E as [_ E]. apply andb_prop in E as [E _]. apply beqb_eq in E. subst b.
   cbn. discriminate.
 Qed.
+
+Lemma L_single_injective p1 p2 q : single p1 = Ok q -> single p2 = Ok q -> p1 = p2.
+Proof.
+  intros H1 H2.
+  pose proof (L_quote_is_one_word [] p1 q eq_refl H1) as E1.
+  pose proof (L_quote_is_one_word [] p2 q eq_refl H2) as E2.
+  rewrite E1 in E2. now injection E2.
+Qed.
